@@ -44,17 +44,20 @@ MANIFEST = dict(
         "every feasible move of it has strictly negative first-order effect and moving it alone strictly decreases the objective "
         "(K_aa >= 0). (5) select_valid: whenever a selection criterion (MVP / LibSVM second order / maximum gain) reports a positive "
         "violation the working set it returns is admissible for updateSMO (indices active; g_i >= g_j for MVP/LibSVM; MVP needs "
-        "the gradients inside the sentinel range [-1e100,1e100]); solveIter_direct_inv: every state produced by one pass of "
-        "QpSolver::solve that does not enter the stopping branch satisfies the invariant. "
+        "the gradients inside the sentinel range [-1e100,1e100]). (6) The solver's own runs: solveIter_inv_box / solve_inv_box -- "
+        "for the box-constrained problem with maximum-gain selection and eps > 0 EVERY run of the model of QpSolver::solve (any "
+        "iteration limit, the re-selection inside the stopping branch included) ends in a state satisfying the invariant, with no "
+        "admissibility hypothesis left; solveIter_inv_svm / solve_inv_svm_partial -- the same for the equality-constrained "
+        "problem with LibSVM second-order selection as long as the gradients of the un-shrunk state stay strictly inside the "
+        "sentinel range (-1e100,1e100) at the start of every pass (selectLibSVM_sentinel_witness outside). "
         "Tie: the Float instance of the same definitions is compared bit-for-bit, the Rat instance exactly on FE_INEXACT-free "
         "prefixes, with the real classes driven through QpSolver::solve (MVP / LibSVM / maximum-gain selection) and through "
         "adversarial op sequences (double/float entries, CachedMatrix with minimal and larger caches) under ASan/UBSan; an "
         "independent oracle re-derives lin - K*alpha and checks every clause of the property (incl. objective monotonicity, sum "
         "preservation and soundness of shrinking) after every operation."),
-  note=TRUST + "NOT yet proved, covered by the exact/bit-for-bit correspondence and the oracle only: admissibility of the working set "
-       "RE-selected inside the stopping branch of QpSolver::solve (after unshrink + failed checkKKT + shrink the solver steps on "
-       "the re-selected pair without looking at the reported value), so reachable_inv covers every admissible history and every "
-       "pass outside that branch, not yet literally every run of solve; for the box kind a JOINT "
+  note=TRUST + "NOT proved, covered by the exact/bit-for-bit correspondence and the oracle only: solver runs with the MVP selection "
+       "criterion (select_valid covers its direct selections, not its re-selection), runs of the equality-constrained solver "
+       "whose gradients leave the sentinel range (-1e100,1e100); for the box kind a JOINT "
        "two-variable move involving a shrunk variable is only covered to first order; objective monotonicity of the 1-D "
        "box step inside the guard region 0 < K_ii < 1e-12 is false for the code as it is (documented guard; witness theorems). "
        "The proofs about the 2-D box solver are about the definition regenerated from the current source (they fail, and the "
